@@ -567,4 +567,41 @@ theorem introspect_byName_eq {doc : Doc} {s : Schema} (h : AcceptedFacts doc s) 
   intro t ht
   exact perVertexType_property_eq h (listed_mem (List.mem_filter.mp ht).1)
 
+theorem filter_or_perm {α : Type} (p q : α → Bool) (l : List α) (h : ∀ x ∈ l, ¬ (p x = true ∧ q x = true)) :
+    (l.filter (fun x => p x || q x)).Perm (l.filter p ++ l.filter q) := by
+  induction l with
+  | nil => exact List.Perm.refl _
+  | cons x xs ih =>
+    have ih' := ih (fun y hy => h y (by simp [hy]))
+    have hx := h x (by simp)
+    cases hp : p x <;> cases hq : q x
+    · simpa [List.filter_cons, hp, hq] using ih'
+    · simp only [List.filter_cons, hp, hq, Bool.or_true, Bool.false_eq_true, if_false, if_true]
+      exact (List.Perm.cons x ih').trans List.perm_middle.symm
+    · simp only [List.filter_cons, hp, hq, Bool.or_false, Bool.false_eq_true, if_false, if_true, List.cons_append]
+      exact List.Perm.cons x ih'
+    · exact absurd ⟨hp, hq⟩ hx
+
+/-- For a duplicate-free list of names, one block per element is (up to order) the selection of the
+listed types whose name is in the list. -/
+theorem oneOf_blocks_perm (l : List TypeDef) (ns : List Name) (hnd : ns.Nodup) :
+    (ns.flatMap fun n => l.filter (fun t => t.name == n)).Perm (l.filter (fun t => ns.contains t.name)) := by
+  induction ns with
+  | nil => simp
+  | cons n rest ih =>
+    rw [List.nodup_cons] at hnd
+    have h1 : l.filter (fun t => (n :: rest).contains t.name) =
+        l.filter (fun t => (t.name == n) || rest.contains t.name) := by
+      apply List.filter_congr
+      intro t _
+      simp only [List.contains_cons]
+    rw [h1, List.flatMap_cons]
+    refine List.Perm.trans ?_ (filter_or_perm _ _ l ?_).symm
+    · exact List.Perm.append_left _ (ih hnd.2)
+    · intro t _ ⟨ha, hb⟩
+      have : t.name = n := by simpa using ha
+      rw [this] at hb
+      exact hnd.1 (by simpa using hb)
+
+
 end TF.SchemaDoc
